@@ -307,15 +307,18 @@ fn make_cat(nodes: ir::NodeList) -> ir::Node {
     }
 }
 
-fn make_alt(nodes: ir::NodeList) -> ir::Node {
-    let mut mright = None;
-    for node in nodes.into_iter().rev() {
-        match mright {
-            None => mright = Some(node),
-            Some(right) => mright = Some(ir::Node::Alt(Box::new(node), Box::new(right))),
+fn make_alt(mut nodes: ir::NodeList) -> ir::Node {
+    // Build a balanced tree rather than a right-leaning chain, so that the recursive IR walkers
+    // (and Drop) need only logarithmic stack depth for a pattern with very many alternatives.
+    // Alternatives are tried in the same left-to-right order either way.
+    match nodes.len() {
+        0 => ir::Node::Empty,
+        1 => nodes.pop().unwrap(),
+        n => {
+            let right = nodes.split_off(n / 2);
+            ir::Node::Alt(Box::new(make_alt(nodes)), Box::new(make_alt(right)))
         }
     }
-    mright.unwrap_or(ir::Node::Empty)
 }
 
 /// \return a CodePointSet for a given character escape (positive or negative).
